@@ -147,6 +147,9 @@ func (s *Service) handleConnection(ctx context.Context, conn net.Conn, wg *sync.
 
 func (s *Service) teardown() {
 	s.mutex.Lock()
+	if s.listener != nil {
+		s.listener.Close()
+	}
 	s.listener = nil
 	s.running = false
 	s.protocol = ""
